@@ -538,9 +538,9 @@ class PyMap(Val):
         return en, None
 
     def m_get(self, cx, k, default=None):
-        if default is None:
-            raise Unsupported("dict.get without default")
         kt = _t(k)
+        if default is None or isinstance(default, PyNone):
+            return PyOpt(z3.Not(z3.Select(self.dom, kt)), self.valty.wrap(z3.Select(self.val, kt)), self.valty), None
         if isinstance(default, (PyInt, PyBool, PyReal, PyObj)) and self.valty.sort() == default.t.sort():
             return self.valty.wrap(z3.If(z3.Select(self.dom, kt), z3.Select(self.val, kt), default.t)), None
         raise Unsupported("dict.get default type")
@@ -835,3 +835,14 @@ def TObj(cls):
 def term(x):
     """raw z3 term of a scalar Val (identity on z3 terms)"""
     return _t(x)
+
+
+class TTuple(Ty):
+    """fixed-length tuple of typed components (results of functions returning several values)"""
+    single = False
+
+    def __init__(self, *tys):
+        self.tys = tys
+
+    def fresh(self, hint="tup"):
+        return PyTuple([t.fresh(f"{hint}.{k}") for k, t in enumerate(self.tys)])
